@@ -246,6 +246,10 @@ def build_call(case):
     kw['tmax'] = c.tmax
     if c.full:
         kw['return_full_data'] = True
+    if case.get('sim_kwargs') == 'tex':
+        kw['sim_kwargs'] = {'tex': False}
+    elif case.get('sim_kwargs') == 'pos':
+        kw['sim_kwargs'] = {'pos': {u: (float(i), float(i * i % 3)) for i, u in enumerate(G)}, 'tex': True}
     c.f = getattr(EoN, sim)
     c.args, c.kw = args, kw
     return c
@@ -324,6 +328,8 @@ def random_sim_case(r, sim, nmax=14, tmaxes=None):
         case['IC'] = [r.choice([0, 0, 1]) for _ in range(n)]
         if case['cmodel'] == 'sis' and case['tmax'] == 'inf':
             case['tmax'] = case['tmin'] + 4
+    if r.random() < 0.25:
+        case['sim_kwargs'] = r.choice(['tex', 'pos'])       # keyword arguments for the Simulation_Investigation object (ignored without full data)
     if sim == 'Gillespie_simple_contagion' and case['tmax'] == 'inf':
         case['tmax'] = case['tmin'] + 4      # generic specs need not die out
     return case
